@@ -248,3 +248,24 @@ pub fn is_decoder_location(loc: &str) -> bool {
     let root = repo_root();
     loc.starts_with(&format!("{root}/")) || loc.starts_with("/repo/") || loc.contains("/rustc/") || loc.contains("/.cargo/registry/")
 }
+
+#[cfg(verif_msan)]
+unsafe extern "C" {
+    fn __msan_check_mem_is_initialized(x: *const std::ffi::c_void, size: usize);
+}
+
+/// Every sample a render hands out must be initialised memory. Under the MemorySanitizer build
+/// (`--cfg verif_msan`) this asks the sanitizer about the whole buffer, which reports an
+/// uninitialised byte together with the place it was created; otherwise it folds the buffer so that
+/// ASan / Miri see a read of every element.
+pub fn touch_samples(buf: &[f32]) {
+    #[cfg(verif_msan)]
+    unsafe {
+        __msan_check_mem_is_initialized(buf.as_ptr() as *const _, std::mem::size_of_val(buf));
+    }
+    let mut acc = 0u32;
+    for v in buf {
+        acc = acc.wrapping_mul(31).wrapping_add(v.to_bits());
+    }
+    std::hint::black_box(acc);
+}
